@@ -107,10 +107,11 @@ META = {
         "text": "Coq theorems for every graph (multi-edges, any J, any biases), state and site/edge: the energy differences used by the spin and edge moves equal E(after)-E(before) for the "
                 "energy the sampler reports; proposals are state independent (uniform or |J|-weighted); moves are involutions that keep the spin count; and Metropolis acceptance min(1,exp(-beta dE)) "
                 "with a direction-independent proposal satisfies detailed balance w.r.t. exp(-beta E) (over the stdlib reals). The model is tied to graph.rs by replaying basic-move time steps on the raw tape "
-                "and by bisecting the acceptance threshold of every spin and edge move and comparing it with rational brackets of exp(-beta dE).",
+                "and by bisecting the acceptance threshold of every spin and edge move and comparing it with rational brackets of exp(-beta dE). "
+                "The worm move is transcribed and replayed on the raw tape as well (time steps with all three move sets); for it the stationarity clause is REFUTED in Coq: C19_worm_refuted exhibits a graph and a state from which the worm goes to a state of strictly higher reported energy with probability 1 for every acceptance function and beta, which no kernel reversible w.r.t. exp(-beta E) can do (C19_reversible_cannot_go_uphill_surely); the witness is replayed on the implementation by every run (KNOWN-FINDING worm). The worm keeps the spin count for every draw sequence.",
         "note": "Trusted: Coq kernel + vm_compute; Model/Classical.v; exp bracket; real-number axioms of the standard library (named). Known finding: the worm move is not Boltzmann-stationary "
                 "(its bias term has the opposite sign to get_energy; the pinned tests test_worm_flip_bias(_not) encode that sign, so it cannot be repaired without editing tests).",
-        "technique": "Coq proof (list induction + lra over Q; Reals.exp for the acceptance identity) + raw-tape replay and threshold bisection",
+        "technique": "Coq proof (list induction + lra over Q; Reals.exp for the acceptance identity; refutation theorem with witness for the worm move) + raw-tape replay of all three move sets and threshold bisection",
         "design_ref": "DESIGN.md §3 C19",
     },
     "C09": {
